@@ -87,19 +87,18 @@ def fmt(v):
   if v is None:
     return "None"
   v = Fraction(v)
-  s = str(v)
-  if len(s) <= 24:
-    return s
   n, d = v.numerator, v.denominator
+  if n.bit_length() + d.bit_length() <= 72:
+    return str(v)
   if d & (d - 1) == 0:
     e = -(d.bit_length() - 1)
-    while n and n % 2 == 0:
-      n //= 2
-      e += 1
-    s = "%d*2^%d" % (n, e)
-    if len(s) <= 60:
-      return s
-  return s[:28] + "...(%d digits)" % len(s)
+    if n:
+      tz = (n & -n).bit_length() - 1
+      n >>= tz
+      e += tz
+    if n.bit_length() <= 160:
+      return "%d*2^%d" % (n, e)
+  return "(%d-bit numerator)/(%d-bit denominator)" % (n.bit_length(), d.bit_length())
 
 
 @functools.lru_cache(maxsize=None)
@@ -380,18 +379,16 @@ _BINARY = ("Binary", "StochasticBinary", "Bernoulli")
 
 def _num(v, default=-1):
   """Plain python number out of python / numpy / tf scalars."""
-  if hasattr(v, "numpy"):
-    v = v.numpy()
-  try:
-    import numpy as np
-    if isinstance(v, np.ndarray):
-      v = v.reshape(-1)[0]
-    if isinstance(v, np.generic):
-      v = v.item()
-  except ImportError:
-    pass
   if v is None:
     return default
+  if type(v) in (int, float, bool, str):
+    return v
+  if hasattr(v, "numpy"):
+    v = v.numpy()
+  if hasattr(v, "reshape") and hasattr(v, "shape") and getattr(v, "shape", ()) != ():
+    v = v.reshape(-1)[0]
+  if hasattr(v, "item"):
+    v = v.item()
   return v
 
 
